@@ -278,6 +278,9 @@ func c21Marshal(c *fx.Ctx, fields []c21Field, style configuration.FieldNameStyle
 		}
 	}
 	c.Distinct("nontrivial", fmt.Sprintf("%v|%d|%d", fields, style, defOmit))
+	if c.Index()%53 == 0 {
+		c.Sample(map[string]interface{}{"fields": fields, "style": int(style), "default_omit": int(defOmit), "events": clipS(ev.Join(es))})
+	}
 }
 
 // ---- unmarshal side ----
